@@ -564,6 +564,32 @@ func (c *vfC23Ctx) keysFixed() bool {
 		}
 		c.rep.Count("keys_checked", 1)
 	}
+	// the same for the rows the engine actually delivers (the model's rows are a set by construction): a key the
+	// engine reports while it delivers two rows that agree on it is wrong whichever of the two is at fault
+	if q, cleanup, ok := c.prepare(); ok {
+		engineRows, ok := c.all(q, Next)
+		hdrCols := slices.Clone(q.Header().Columns)
+		cleanup()
+		if ok && vfSameSet(hdrCols, c.cols) {
+			for _, key := range keys {
+				if !vfSubset(key, c.cols) {
+					continue
+				}
+				seen := map[string]vfRow{}
+				for _, row := range engineRows {
+					k := vfTupleKey(row, key)
+					if other, dup := seen[k]; dup {
+						c.cfg = vfCfg{name: "keys"}
+						c.violate("C23/reported-key-not-unique/in-delivered-rows", "Keys() reports "+strings.Join(key, ",")+" but two delivered rows agree on it", key,
+							[]string{vfRowText(other, c.cols), vfRowText(row, c.cols)}, "")
+						return false
+					}
+					seen[k] = row
+				}
+				c.rep.Count("keys_checked_on_delivered_rows", 1)
+			}
+		}
+	}
 	for _, f := range fixed {
 		if !slices.Contains(c.cols, f.col) {
 			continue
